@@ -302,7 +302,7 @@ class RecorderCheck(object):
         mod = 'MC_%s_%s' % (self.rep.prop, name)
         mc.write_mc(self.scratch, 'Recorder', mod, to_tla_consts(c), invariants=ALL_INVARIANTS,
                     properties=ALL_PROPERTIES)
-        workers = 8
+        workers = 1
         r, behs = tlc.simulate(self.scratch, mod, mod + '.cfg', num=num, depth=depth, seed=self.seed + 1,
                                workers=workers)
         if r.violation:
